@@ -12,4 +12,5 @@ for p in "$@"; do
   echo "exit=$?"
 done
 git -C /repo checkout -- .
+git -C /verif checkout -- evidence 2>/dev/null
 git -C /repo status --porcelain
